@@ -318,4 +318,6 @@ pub enum Action {
     Dot,
     /// node-level update handler (`Incr::on_update`)
     OnUpdate(NodeId),
+    /// reconfigure the height limit at a quiescent point (always far above the heights in use)
+    SetMaxHeight(usize),
 }
